@@ -204,8 +204,8 @@ def run_reader_impl(b, sched):
         return 'E:ValueError', e
 
 
-def judge_reader(ctx, case, reply):
-    x, b = reader_bytes(case)
+def judge_reader(ctx, case, reply, x, b):
+    # (x, b) are computed once per case: copies of padded structured arrays have undefined padding
     got, obj = run_reader_impl(b, case['sched'])
     ctx.tag('reader-' + case['damage'], 'reader-' + got.split(' ')[0].replace(':', '-'))
     if got == 'E:ValueError' and not isinstance(obj, ValueError):
@@ -1037,11 +1037,17 @@ def run_crash_cases_size(ctx, direct_modes, n_elems):
         old_blob = None
         # 1. plain traces
         plain = {}
-        for direct in direct_modes:
-            for with_old in (False, True):
-                idx += 1
-                d = prepare_dir(base, idx, with_old, n_elems)
-                st, tr, err = run_put(d, direct, None, os.path.join(base, f'trace{idx}'), n_elems)
+        with concurrent.futures.ThreadPoolExecutor(max_workers=4) as ex:
+            futs = {}
+            for direct in direct_modes:
+                for with_old in (False, True):
+                    idx += 1
+                    d = prepare_dir(base, idx, with_old, n_elems)
+                    futs[ex.submit(run_put, d, direct, None, os.path.join(base, f'trace{idx}'), n_elems)] = (
+                        direct, with_old, d)
+            for f in concurrent.futures.as_completed(futs):
+                direct, with_old, d = futs[f]
+                st, tr, err = f.result()
                 if st == 'notstarted':
                     ctx.tag('crash-skipped-strace-failed')
                     ctx.advise('strace could not run the writer: ' + err)
@@ -1073,7 +1079,7 @@ def run_crash_cases_size(ctx, direct_modes, n_elems):
                         with_old = (idx % 3 != 0)
                         jobs.append(dict(direct=direct, with_old=with_old, inject=inj,
                                          dir=prepare_dir(base, idx, with_old, n_elems), trace_file=os.path.join(base, f'trace{idx}')))
-        with concurrent.futures.ThreadPoolExecutor(max_workers=12) as ex:
+        with concurrent.futures.ThreadPoolExecutor(max_workers=14) as ex:
             futs = {ex.submit(run_put, j['dir'], j['direct'], j['inject'], j['trace_file'], n_elems): j for j in jobs}
             for f in concurrent.futures.as_completed(futs):
                 j = futs[f]
@@ -1103,6 +1109,9 @@ def run_crash_cases_size(ctx, direct_modes, n_elems):
             v = None
             ctx.tag(f"crash-{'direct' if r['direct'] else 'buffered'}-{(r['inject'] or 'none').split(':')[0]}-"
                     f"{r['status']}-{view}")
+            if r['inject'] and 'KILL' in r['inject'] and r['status'] != 'killed':
+                ctx.tag('crash-kill-not-delivered')
+                ctx.advise(f"strace did not deliver {r['inject']}: this crash point was not exercised")
             if view not in ('new', before):
                 v = (f"after a put that ended '{r['status']}' (inject={r['inject']}) a fresh reader sees {view}; "
                      f"only '{before}' or the complete new chunk are allowed")
@@ -1193,13 +1202,15 @@ def evaluate(ctx, cases, env):
     readers = [c for c in cases if c['kind'] == 'reader']
     if readers:
         lines = []
+        blobs = []
         for c in readers:
-            _, b = reader_bytes(c)
+            x, b = reader_bytes(c)
+            blobs.append((x, b))
             sch = ','.join(map(str, c['sched'])) or '-'
             lines.append(f'read {hexs(b)} {sch} {header_oracle(b)}')
         replies = common.run_model('C08', lines)
-        for c, rep, ln in zip(readers, replies, lines):
-            v = judge_reader(ctx, c, rep)
+        for c, rep, (x, b) in zip(readers, replies, blobs):
+            v = judge_reader(ctx, c, rep, x, b)
             ctx.count(json.dumps(c, sort_keys=True), c['damage'] != 'none',
                       sample={'reader': c['damage'], 'model': rep[:40]})
             if v:
